@@ -57,13 +57,6 @@ def _formula_writes(events):
         yield ev, a
 
 
-def c05_error_cells_frozen_into_data_column(events, violation):
-  """F-r: the mismatch is an error class turning into NoneType, after a formula column was
-  converted to data."""
-  return "NoneType" in violation.get("detail", "") and any(
-    a[0] == "ModifyColumn" and a[3].get("isFormula") is False for _ev, a in _formula_writes(events))
-
-
 def c05_lookup_sort_or_key_column_errors(events, violation):
   """F-c: a column that some lookup formula uses as key or sort column is later given a formula
   (its cells may then be errors) or removed."""
